@@ -239,10 +239,14 @@ fn walk_obj(p: &mut DocProj, o: &Map<String, Value>, path: &[String]) -> (String
             kp.push(k.clone());
             let (fv, nv) = walk_flat(p, v, &kp);
             norm.insert(k.clone(), nv);
+            // own content: references (arrays, objects) and null (what a reference to an object shown
+            // elsewhere reads as) are placement, not content
             if let Value::Array(a) = &fv {
                 let did = format!("^{}@{}", id, k);
                 p.arrays.insert(tok(&did), a.iter().map(elem_token).collect());
-                own.insert(k.clone(), Value::from(did));
+                own.insert(k.clone(), Value::from("*"));
+            } else if v.is_object() || v.is_null() {
+                own.insert(k.clone(), Value::from("*"));
             } else {
                 own.insert(k.clone(), fv);
             }
